@@ -345,8 +345,8 @@ theorem errLocalAt : ∀ f, ErrLocalAt S f := by
       loop_el pExponentLoop, L.exponent, ih.exponent, ih.exponentLoop
     case expression =>
       intro ts e h hk
-      have hE : ∀ ts', pExpression (f + 1) ts' = (pTerm f ts').bind exprTail :=
-        fun ts' => by simp only [pExpression, exprTail]; bind_rfl
+      have hE : ∀ ts' : List (Tok S), pExpression (f + 1) ts' = (pTerm f ts').bind exprTail :=
+        fun ts' => by simp only [pExpression]; bind_rfl
       simp only [pExpression] at h
       split at h
       · rename_i e1 r1 h1
@@ -365,10 +365,12 @@ theorem errLocalAt : ∀ f, ErrLocalAt S f := by
                 refine ErrLoc.here_cons (fun u' r' hu' => ?_)
                 have hnu' := (sw_of_tag u u' hu').not_unit (fun un hun => hnu un hun)
                 simp only [exprTail, has, if_true]
-                split
-                · rename_i un hun
-                  exact absurd hun (hnu' un)
-                · rfl
+                first
+                  | rfl
+                  | (split
+                     · rename_i un hun
+                       exact absurd hun (hnu' un)
+                     · rfl)
             · cases h
               exact ErrLoc.here_nil (by simp only [exprTail, has, if_true]; rfl)
           · cases h
@@ -394,7 +396,8 @@ theorem errLocalAt : ∀ f, ErrLocalAt S f := by
         · rename_i hop
           refine (ih.factorial _ _ h hk).congrHead (fun ts' hs => ?_)
           obtain ⟨t', r', rfl, ht⟩ := hs.cons_inv
-          simp only [pUnary, ht, hop]
+          simp only [pUnary, ht]
+          rw [if_neg hop]
       · refine (ih.factorial _ _ h hk).congrHead (fun ts' hs => ?_)
         rw [hs.nil_inv]
         simp only [pUnary]
@@ -416,13 +419,14 @@ theorem errLocalAt : ∀ f, ErrLocalAt S f := by
       · rename_i t r0
         split at h
         · rename_i hop
-          have hC : ∀ ts', pCallLoop (f + 1) acc (t :: ts') = (pArgs f ts').bind
+          have hC : ∀ ts' : List (Tok S), pCallLoop (f + 1) acc (t :: ts') = (pArgs f ts').bind
               (fun args r1 => (consume .rparen r1).bind
                 (fun _ r2 => pCallLoop f (.call acc t args) r2)) :=
             fun ts' => by
               simp only [pCallLoop, hop, if_true]
               split
-              · rename_i hq; rw [hq]; simp only [PRes.bind]; bind_rfl
+              · rename_i hq; rw [hq]; simp only [PRes.bind] <;>
+                  (generalize consume Tag.rparen _ = x; cases x <;> rfl)
               · rename_i hq; rw [hq]; rfl
               · rename_i hq; rw [hq]; rfl
           refine ErrLoc.cons t (ErrLoc.congr hC ?_)
@@ -455,18 +459,20 @@ theorem errLocalAt : ∀ f, ErrLocalAt S f := by
         rfl
     case argsLoop =>
       intro ts e h hk
-      have hA : ∀ ts', pArgsLoop (f + 1) ts' = (pExpression f ts').bind (argsTail f) :=
+      have hA : ∀ ts' : List (Tok S), pArgsLoop (f + 1) ts' = (pExpression f ts').bind (argsTail f) :=
         fun ts' => by
-          simp only [pArgsLoop, argsTail]
-          split
-          · rename_i hq; rw [hq]; simp only [PRes.bind]
-            split
-            · split
-              · bind_rfl
-              · rfl
-            · rfl
-          · rename_i hq; rw [hq]; rfl
-          · rename_i hq; rw [hq]; rfl
+          simp only [pArgsLoop]
+          cases pExpression f ts' with
+          | ok e0 r0 =>
+            cases r0 with
+            | nil => rfl
+            | cons t r' =>
+              by_cases hc : t.tag = .comma
+              · simp only [PRes.bind, argsTail, hc, if_true] <;>
+                  (generalize pArgsLoop f r' = x; cases x <;> rfl)
+              · simp only [PRes.bind, argsTail, hc, if_false]
+          | err e0 => rfl
+          | fuel => rfl
       simp only [pArgsLoop] at h
       split at h
       · rename_i e1 r1 h1
@@ -491,9 +497,9 @@ theorem errLocalAt : ∀ f, ErrLocalAt S f := by
       · cases h
     case rows =>
       intro br prev idx ts e h hk
-      have hR : ∀ ts', pRows (f + 1) br prev idx ts' = (pArgs f ts').bind (rowsTail f br prev idx) :=
+      have hR : ∀ ts' : List (Tok S), pRows (f + 1) br prev idx ts' = (pArgs f ts').bind (rowsTail f br prev idx) :=
         fun ts' => by
-          simp only [pRows, rowsTail]
+          simp only [pRows]
           split
           · rename_i hq; rw [hq]; rfl
           · rename_i hq; rw [hq]; rfl
@@ -554,13 +560,14 @@ theorem errLocalAt : ∀ f, ErrLocalAt S f := by
           exact ErrLoc.cons t ((ih.group _ _ _ _ h hk).congr
             (fun ts' => by simp only [pPrimary, hkd]))
         · rename_i hkd
-          have hP : ∀ ts', pPrimary (f + 1) (t :: ts') = (pRows f t [] 0 ts').bind
+          have hP : ∀ ts' : List (Tok S), pPrimary (f + 1) (t :: ts') = (pRows f t [] 0 ts').bind
               (fun rows r1 => (consume .rbracket r1).bind
                 (fun close r2 => PRes.ok (.matrix close rows) r2)) :=
             fun ts' => by
               simp only [pPrimary, hkd]
               split
-              · rename_i hq; rw [hq]; simp only [PRes.bind]; bind_rfl
+              · rename_i hq; rw [hq]; simp only [PRes.bind] <;>
+                  (generalize consume Tag.rbracket _ = x; cases x <;> rfl)
               · rename_i hq; rw [hq]; rfl
               · rename_i hq; rw [hq]; rfl
           refine ErrLoc.cons t (ErrLoc.congr hP ?_)
@@ -582,24 +589,26 @@ theorem errLocalAt : ∀ f, ErrLocalAt S f := by
           have hps : primaryStart t.tag = false := by
             unfold Tok.tag
             cases hkd : t.kind <;> simp [Kind.tag, primaryStart]
-            · exact h1 _ hkd
-            · exact h2 _ hkd
-            · exact h3 hkd
-            · exact h4 hkd
-            · exact h5 hkd
-            · exact h6 hkd
-            · exact h7 hkd
+            all_goals first
+              | exact h1 _ hkd
+              | exact h2 _ hkd
+              | exact h3 hkd
+              | exact h4 hkd
+              | exact h5 hkd
+              | exact h6 hkd
+              | exact h7 hkd
           exact ErrLoc.here_cons (fun t' r' ht => by
             rw [pPrimary_bad (by rw [ht]; exact hps)]; rfl)
     case group =>
       intro o k ts e h hk
-      have hG : ∀ ts', pGroup (f + 1) o k ts' = (pExpression f ts').bind
+      have hG : ∀ ts' : List (Tok S), pGroup (f + 1) o k ts' = (pExpression f ts').bind
           (fun e r => (consume (groupClose k) r).bind
             (fun _ r' => PRes.ok (.grouping o k e) r')) :=
         fun ts' => by
           simp only [pGroup]
           split
-          · rename_i hq; rw [hq]; simp only [PRes.bind]; bind_rfl
+          · rename_i hq; rw [hq]; simp only [PRes.bind] <;>
+              (generalize consume (groupClose k) _ = x; cases x <;> rfl)
           · rename_i hq; rw [hq]; rfl
           · rename_i hq; rw [hq]; rfl
       simp only [pGroup] at h
@@ -616,5 +625,293 @@ theorem errLocalAt : ∀ f, ErrLocalAt S f := by
         cases h
         exact (ErrLoc.bind_err _ (ih.expression _ _ h1 hk)).congr hG
       · cases h
+
+/-! ## Statements -/
+
+/-- what `delete_statement` does after `expression` -/
+def delTail (del : Tok S) (e : Expr S) (r : List (Tok S)) : PRes S (Stmt S) :=
+  match e with
+  | .ident name =>
+    match consumeDelim r with
+    | .ok _ r' => .ok (.deleteVar name) r'
+    | .err e => .err e
+    | .fuel => .fuel
+  | .call callee _ args =>
+    match consumeDelim r with
+    | .ok _ r' =>
+      match sigOfCall callee args with
+      | some (name, sig) => .ok (.deleteSig name sig) r'
+      | none => .err ⟨.cannotDelete, some (del.line, del.col), []⟩
+    | .err e => .err e
+    | .fuel => .fuel
+  | _ => .err ⟨.cannotDelete, some (del.line, del.col), []⟩
+
+theorem pDelete_eq (fuel : Nat) (del : Tok S) (ts : List (Tok S)) :
+    pDelete fuel del ts = (pExpression fuel ts).bind (delTail del) := by
+  simp only [pDelete]
+  cases pExpression fuel ts <;> rfl
+
+/-- error locality for `delete_statement` -/
+theorem pDelete_errLoc {fuel : Nat} {del : Tok S} {ts : List (Tok S)} {e}
+    (h : pDelete fuel del ts = .err e) (hk : e.kind.isExpected = true) :
+    ErrLoc (pDelete fuel del) ts e := by
+  refine ErrLoc.congr (pDelete_eq fuel del) ?_
+  simp only [pDelete] at h
+  split at h
+  · rename_i e1 r1 h1
+    refine ErrLoc.bind_ok (delTail del) (localAt fuel).expression sw_of_tag h1 ?_
+    split at h
+    · rename_i name
+      split at h
+      · cases h
+      · rename_i e2 h2
+        cases h
+        exact (ErrLoc.bind_err (fun _ r' => PRes.ok (.deleteVar name) r')
+          (consumeDelim_errLoc h2)).congr (fun ts' => by
+            simp only [delTail]; generalize consumeDelim ts' = x; cases x <;> rfl)
+      · cases h
+    · rename_i callee paren args
+      split at h
+      · split at h
+        · cases h
+        · cases h
+          simp [ParseErrKind.isExpected] at hk
+      · rename_i e2 h2
+        cases h
+        exact (ErrLoc.bind_err (fun _ r' => match sigOfCall callee args with
+            | some (name, sig) => PRes.ok (.deleteSig name sig) r'
+            | none => .err ⟨.cannotDelete, some (del.line, del.col), []⟩)
+          (consumeDelim_errLoc h2)).congr (fun ts' => by
+            simp only [delTail]; generalize consumeDelim ts' = x; cases x <;> rfl)
+      · cases h
+    · cases h
+      simp [ParseErrKind.isExpected] at hk
+  · rename_i e1 h1
+    cases h
+    exact ErrLoc.bind_err _ ((errLocalAt fuel).expression _ _ h1 hk)
+  · cases h
+
+/-- `expression_statement`: the statement delimiter after the expression -/
+def exprStmtTail (e : Expr S) (r : List (Tok S)) : PRes S (Stmt S) :=
+  match consumeDelim r with
+  | .ok _ r' => .ok (.expr e) r'
+  | .err e => .err e
+  | .fuel => .fuel
+
+/-- what `statement` does after the first `expression` -/
+def stmtTail (fuel : Nat) (e : Expr S) (r : List (Tok S)) : PRes S (Stmt S) :=
+  match e with
+  | .ident name =>
+    match r with
+    | eq :: r1 =>
+      if eq.tag = .equal then
+        match pExpression fuel r1 with
+        | .ok right r2 =>
+          match consumeDelim r2 with
+          | .ok _ r3 => .ok (.assign name right) r3
+          | .err e => .err e
+          | .fuel => .fuel
+        | .err e => .err e
+        | .fuel => .fuel
+      else exprStmtTail e r
+    | [] => exprStmtTail e r
+  | .call callee _ args =>
+    match r with
+    | eq :: r1 =>
+      if eq.tag = .equal then
+        match pExpression fuel r1 with
+        | .ok body r2 =>
+          match consumeDelim r2 with
+          | .ok _ r3 =>
+            match sigOfCall callee args with
+            | some (name, sig) => .ok (.define name sig body) r3
+            | none => .err ⟨.invalidAssignmentTarget, some (eq.line, eq.col), []⟩
+          | .err e => .err e
+          | .fuel => .fuel
+        | .err e => .err e
+        | .fuel => .fuel
+      else exprStmtTail e r
+    | [] => exprStmtTail e r
+  | _ => exprStmtTail e r
+
+theorem pStatementExpr_eq (fuel : Nat) (ts : List (Tok S)) :
+    pStatement.pStatementExpr fuel ts = (pExpression fuel ts).bind (stmtTail fuel) := by
+  simp only [pStatement.pStatementExpr]
+  cases pExpression fuel ts <;> rfl
+
+theorem exprStmtTail_errLoc {e1 : Expr S} {r : List (Tok S)} {e}
+    (h : consumeDelim r = .err e) : ErrLoc (exprStmtTail e1) r e :=
+  (ErrLoc.bind_err (fun _ r' => PRes.ok (.expr e1) r') (consumeDelim_errLoc h)).congr
+    (fun ts' => by simp only [exprStmtTail]; generalize consumeDelim ts' = x; cases x <;> rfl)
+
+set_option hygiene false in
+/-- the `expression_statement` fall-back: `h` is about `match consumeDelim r1 with …` -/
+local macro "expr_stmt_el" : tactic => `(tactic| (
+  split at h
+  · cases h
+  · rename_i e2 h2
+    cases h
+    exact exprStmtTail_errLoc h2
+  · cases h))
+
+/-- error locality for assignment / function declaration / expression statement -/
+theorem pStatementExpr_errLoc {fuel : Nat} {ts : List (Tok S)} {e}
+    (h : pStatement.pStatementExpr fuel ts = .err e) (hk : e.kind.isExpected = true) :
+    ErrLoc (pStatement.pStatementExpr fuel) ts e := by
+  refine ErrLoc.congr (pStatementExpr_eq fuel) ?_
+  simp only [pStatement.pStatementExpr] at h
+  split at h
+  · rename_i e1 r1 h1
+    refine ErrLoc.bind_ok (stmtTail fuel) (localAt fuel).expression sw_of_tag h1 ?_
+    split at h
+    · rename_i name
+      split at h
+      · rename_i eq r1'
+        split at h
+        · rename_i heq
+          refine ErrLoc.cons eq (ErrLoc.congr (p' := fun ts' => (pExpression fuel ts').bind
+            (fun right r2 => (consumeDelim r2).bind
+              (fun _ r3 => PRes.ok (.assign name right) r3))) (fun ts' => ?_) ?_)
+          · simp only [stmtTail, heq, if_true]
+            cases pExpression fuel ts' with
+            | ok a b => simp only [PRes.bind]; generalize consumeDelim b = x; cases x <;> rfl
+            | err a => rfl
+            | fuel => rfl
+          · split at h
+            · rename_i right r2 h2
+              refine ErrLoc.bind_ok _ (localAt fuel).expression sw_of_tag h2 ?_
+              split at h
+              · cases h
+              · rename_i e3 h3
+                cases h
+                exact ErrLoc.bind_err _ (consumeDelim_errLoc h3)
+              · cases h
+            · rename_i e2 h2
+              cases h
+              exact ErrLoc.bind_err _ ((errLocalAt fuel).expression _ _ h2 hk)
+            · cases h
+        · rename_i hne
+          refine ErrLoc.congrHead (p' := exprStmtTail (.ident name)) (fun ts' hs => ?_) ?_
+          · obtain ⟨t', r', rfl, ht⟩ := hs.cons_inv
+            simp only [stmtTail, ht]
+            rw [if_neg hne]
+          · expr_stmt_el
+      · refine ErrLoc.congrHead (p' := exprStmtTail (.ident name)) (fun ts' hs => ?_) ?_
+        · rw [hs.nil_inv]; rfl
+        · expr_stmt_el
+    · rename_i callee paren args
+      split at h
+      · rename_i eq r1'
+        split at h
+        · rename_i heq
+          refine ErrLoc.cons eq (ErrLoc.congr (p' := fun ts' => (pExpression fuel ts').bind
+            (fun body r2 => (consumeDelim r2).bind
+              (fun _ r3 => match sigOfCall callee args with
+                | some (name, sig) => PRes.ok (.define name sig body) r3
+                | none => .err ⟨.invalidAssignmentTarget, some (eq.line, eq.col), []⟩)))
+            (fun ts' => ?_) ?_)
+          · simp only [stmtTail, heq, if_true]
+            cases pExpression fuel ts' with
+            | ok a b => simp only [PRes.bind]; generalize consumeDelim b = x; cases x <;> rfl
+            | err a => rfl
+            | fuel => rfl
+          · split at h
+            · rename_i body r2 h2
+              refine ErrLoc.bind_ok _ (localAt fuel).expression sw_of_tag h2 ?_
+              split at h
+              · split at h
+                · cases h
+                · cases h
+                  simp [ParseErrKind.isExpected] at hk
+              · rename_i e3 h3
+                cases h
+                exact ErrLoc.bind_err _ (consumeDelim_errLoc h3)
+              · cases h
+            · rename_i e2 h2
+              cases h
+              exact ErrLoc.bind_err _ ((errLocalAt fuel).expression _ _ h2 hk)
+            · cases h
+        · rename_i hne
+          refine ErrLoc.congrHead (p' := exprStmtTail (.call callee paren args))
+            (fun ts' hs => ?_) ?_
+          · obtain ⟨t', r', rfl, ht⟩ := hs.cons_inv
+            simp only [stmtTail, ht]
+            rw [if_neg hne]
+          · expr_stmt_el
+      · refine ErrLoc.congrHead (p' := exprStmtTail (.call callee paren args))
+          (fun ts' hs => ?_) ?_
+        · rw [hs.nil_inv]; rfl
+        · expr_stmt_el
+    · rename_i hni hnc
+      refine ErrLoc.congr (p' := exprStmtTail e1) (fun ts' => ?_) ?_
+      · cases e1 <;> first
+          | rfl
+          | exact absurd rfl (fun hh => hni _ hh)
+          | exact absurd rfl (fun hh => hnc _ _ _ hh)
+      · expr_stmt_el
+  · rename_i e1 h1
+    cases h
+    exact ErrLoc.bind_err _ ((errLocalAt fuel).expression _ _ h1 hk)
+  · cases h
+
+/-- **error locality for `statement`** -/
+theorem pStatement_errLoc {fuel : Nat} {ts : List (Tok S)} {e}
+    (h : pStatement fuel ts = .err e) (hk : e.kind.isExpected = true) :
+    ErrLoc (pStatement fuel) ts e := by
+  simp only [pStatement] at h
+  split at h
+  · rename_i t r
+    split at h
+    · rename_i hd
+      exact ErrLoc.cons t ((pDelete_errLoc h hk).congr
+        (fun ts' => by simp only [pStatement, hd, if_true]))
+    · rename_i hd
+      split at h
+      · rename_i hc
+        split at h
+        · cases h
+        · rename_i e2 h2
+          cases h
+          exact ErrLoc.cons t ((ErrLoc.bind_err (fun _ r' => PRes.ok Stmt.clear r')
+            (consumeDelim_errLoc h2)).congr (fun ts' => by
+              simp only [pStatement]
+              rw [if_neg hd, if_pos hc]
+              generalize consumeDelim ts' = x; cases x <;> rfl))
+        · cases h
+      · rename_i hc
+        refine (pStatementExpr_errLoc h hk).congrHead (fun ts' hs => ?_)
+        obtain ⟨t', r', rfl, ht⟩ := hs.cons_inv
+        simp only [pStatement, ht]
+        rw [if_neg hd, if_neg hc]
+  · refine (pStatementExpr_errLoc h hk).congrHead (fun ts' hs => ?_)
+    rw [hs.nil_inv]
+    simp only [pStatement]
+
+/-! ## Reading `ErrLoc` -/
+
+/-- `ErrLoc` spelled out -/
+theorem ErrLoc.iff {α : Type} (p : List (Tok S) → PRes S α) (ts : List (Tok S)) (e : PErr) :
+    ErrLoc p ts e ↔ ∃ c rest, ts = c ++ rest ∧
+      e.pos = rest.head?.map (fun t => (t.line, t.col)) ∧
+      ∀ rest', rest'.head?.map Tok.tag = rest.head?.map Tok.tag →
+        p (c ++ rest') = .err ⟨e.kind, rest'.head?.map (fun t => (t.line, t.col)), e.info⟩ :=
+  Iff.rfl
+
+/-- the two readings of `ErrLoc`: at end of input the error says "end of input" and `p` fails
+    the same way on the consumed prefix alone; otherwise the error names the offending token `t`,
+    and replacing `t` by any token of the same tag and the tail by anything makes `p` fail the
+    same way at the new token's position -/
+theorem ErrLoc.cases {α : Type} {p : List (Tok S) → PRes S α} {ts : List (Tok S)} {e : PErr}
+    (h : ErrLoc p ts e) :
+    (e.pos = none ∧ p ts = .err e) ∨
+    (∃ c t r, ts = c ++ t :: r ∧ e.pos = some (t.line, t.col) ∧
+      ∀ t' r', t'.tag = t.tag →
+        p (c ++ t' :: r') = .err ⟨e.kind, some (t'.line, t'.col), e.info⟩) := by
+  have herr := h.err
+  obtain ⟨c, rest, rfl, hpos, H⟩ := h
+  cases rest with
+  | nil => exact .inl ⟨hpos, herr⟩
+  | cons t r =>
+    exact .inr ⟨c, t, r, rfl, hpos, fun t' r' ht => H (t' :: r') (SameHeadTag.cons ht r r')⟩
 
 end Calc
